@@ -322,6 +322,20 @@ func (c *vltCase) randomOp() {
 		kind = pickKind(kCreate, 88, kDeposit, 1, kWithdraw, 1, kDraw, 1, kRepay, 1, kClose, 1, kDepDraw, 1, kInterest, 1, kSCreate, 1)
 	default:
 		kind = pickKind(kDeposit, 10, kWithdraw, 17, kDraw, 19, kRepay, 17, kClose, 6, kDepDraw, 9, kInterest, 5, kCreate, 3, kSDeposit, 1, kSWithdraw, 1)
+		// an existing vault addressed through another product of the same app (every vault message
+		// has its own "the pair of the message is the pair of the vault" guard)
+		if r.chance(7) {
+			var others []uint64
+			for _, q := range c.prods {
+				if q.app == p.app && q.id != p.id && !q.stable {
+					others = append(others, q.id)
+				}
+			}
+			if len(others) > 0 {
+				app, ep = p.app, others[r.intn(len(others))]
+				kind = pickKind(kDeposit, 30, kWithdraw, 15, kDraw, 15, kRepay, 15, kClose, 10, kDepDraw, 15)
+			}
+		}
 	}
 	switch {
 	case kind < 14: // ---- create
